@@ -221,6 +221,9 @@ def gen_history(rng, style):
                 if rng.random() < 0.93 else rng.choice([0, 13, 30, 34])
         if explicit and rng.random() < 0.45:
             start = rng.randint(0, max(0, Lpre - 1)) if rng.random() < 0.93 else rng.choice([-1, Lpre, Lpre + 2])
+        if explicit and rng.random() < 0.05:
+            # fully explicit field at bit 0 as long as, or longer than, the bit field
+            start, length = rng.choice([0, 0, None]), rng.choice([Lpre, Lpre + 1, Lpre + 4])
         tg, mode = tag_choice()
         return add_exact(n, name, length, start, tg, mode)
 
@@ -402,7 +405,24 @@ def gen_history(rng, style):
                     kw[rng.choice(others)["name"]] = 0
             call(n, kw)
 
-    if label == "collide":
+    if label == "collide" and rng.random() < 0.4:
+        # a scope opened by a selector value that is not a cached small int, entered twice through separately
+        # built instances; explicit definitions that overlap (or re-use a name) inside it must be refused
+        big = rng.choice([257, 300, 511, 1000])
+        add_exact(0, 0, rng.choice([10, None]), Lpre - 10, *tag_choice())
+        a = call(0, {0: big})
+        if a is not None:
+            p0, l0 = rng.randint(0, 3), rng.randint(1, 3)
+            add_exact(a, 1, l0, p0, *tag_choice())
+            b = call(0, {0: big})
+            if b is not None:
+                add_exact(b, 2, rng.randint(1, 3), rng.randint(p0, p0 + l0 - 1), *tag_choice())   # overlaps field 1
+                if rng.random() < 0.5:
+                    add_exact(b, 1, 1, p0 + l0 + 1, [], "list")                                   # name in use
+                add_exact(b, 3, rng.choice([1, 2, None]), p0 + l0 + rng.randint(0, 1), *tag_choice())
+                call(b, {1: 1})
+        target = rng.randint(0, 2)
+    elif label == "collide":
         # an automatically sized field anchored at bit 0 that runs into a co-present field only once it is sized
         s0 = rng.randint(1, 5)
         add_exact(0, 0, None, 0, *tag_choice())
